@@ -2,6 +2,7 @@ package c11
 
 import (
 	"fmt"
+	"regexp"
 	"strings"
 	"sync"
 	"testing"
@@ -334,14 +335,37 @@ func checkNesting(c px.ProgCase) *pk.Failure {
 		}
 		return pk.Failf("nesting", "generator-rejected", "analyzer rejected %s:\n%s\n%s", c.Note, msg, px.ProgText(c))
 	}
+	pos := map[string][]string{}
 	for _, b := range []string{"vm", "tree"} {
 		pk.Extra("comparisons", 1)
-		if cls, msg := px.CompareRun(c.Expect, resp.Run(b)); cls != "" {
+		r := resp.Run(b)
+		if r == nil {
+			return pk.Failf("nesting", "harness-error", "no run result for %s", b)
+		}
+		rc := *r
+		rc.Writes = nil
+		for _, w := range r.Writes {
+			if strings.HasPrefix(w, "@pos ") {
+				pos[b] = append(pos[b], w)
+				continue
+			}
+			rc.Writes = append(rc.Writes, w)
+		}
+		if cls, msg := px.CompareRun(c.Expect, &rc); cls != "" {
 			return pk.Failf("nesting", b+" diff:"+cls, "%s on %s: %s\n%s", c.Note, b, msg, px.ProgText(c))
 		}
 	}
+	if a, b := strings.Join(pos["vm"], ""), strings.Join(pos["tree"], ""); a != b {
+		return pk.Failf("nesting", "diff:positions", "%s: the handlers see different positions of their exceptions\n  vm:   %q\n  tree: %q\n%s", c.Note, a, b, px.ProgText(c))
+	}
+	if len(pos["vm"]) > 0 {
+		pk.Extra("handler-positions-compared", len(pos["vm"]))
+	}
 	return nil
 }
+
+// a println in a handler that shows the message of the caught value: `println("caught 1:try", e3.message);`
+var handlerMessageRe = regexp.MustCompile(`println\([^;\n]*\b([a-z]+[0-9]*)\.message\);`)
 
 func init() { pk.Reg("nesting", checkNesting); pk.Reg("program", checkNesting) }
 
@@ -387,6 +411,11 @@ func runSpecs(t *testing.T, specs []Spec) {
 			c := px.FromGenerated(g)
 			c.Expect = px.ExpOf(tr)
 			c.Note = s.String()
+			// "carrying its message AND POSITION": every handler also prints where its exception was raised. The
+			// reference model knows no positions; the two backends must agree on them (see checkNesting).
+			for name, text := range c.Modules {
+				c.Modules[name] = handlerMessageRe.ReplaceAllString(text, `${0} println("@pos", ${1}.line, ${1}.column);`)
+			}
 			pk.Class("exit:" + s.Exit)
 			pk.Class(fmt.Sprintf("depth:%d", len(s.Path)))
 			pk.Class("outcome:" + tr.Outcome.Class)
